@@ -30,6 +30,18 @@
   (while (and (< n 2000) (or (verif/pid-running pid) (> (verif/live-threads) 0)))
     (verif/real-sleep 1) (++ n)))
 
+# one connected unix socket per driver process, made on first use (net/ functions need a socket stream)
+(var the-sock nil)
+(defn- sock []
+  (unless the-sock
+    (def path (string "/tmp/c07-sock-" (os/getpid)))
+    (def srv (net/listen :unix path))
+    (def cli (net/connect :unix path))
+    (def conn (net/accept srv))
+    (os/rm path)
+    (set the-sock [cli conn srv]))
+  (the-sock 0))
+
 (defn- make-thunk [op chans]
   (match op
     [:sleep s] (fn [] (ev/sleep s))
@@ -47,6 +59,10 @@
     # a call that raises synchronously (invalid data) followed, in the same fiber turn, by a real wait
     [:badw pi tmo inner] (let [t (make-thunk inner chans)]
                            (fn [] (protect (ev/write ((pipes pi) 1) 12345 tmo)) (t)))
+    # net/read rejected for an invalid byte count (with a timeout), then a real wait in the same fiber turn
+    [:badnr tmo inner] (let [t (make-thunk inner chans)]
+                         (fn [] (protect (net/read (sock) -1 nil tmo)) (protect (net/chunk (sock) 1.5 nil tmo))
+                           (protect (net/write (sock) 12345 tmo)) (t)))
     # a read that ends (data, time-out or cancellation) inside a nested fiber, then a second wait of the same task
     [:trw pi tmo inner] (let [t (make-thunk inner chans)]
                           (fn [] (try (ev/read ((pipes pi) 0) 4 nil tmo) ([e] nil)) (t)))
@@ -63,7 +79,7 @@
     (errorf "bad op %p" op)))
 
 (defn run-history [item]
-  (def chans (map |(ev/chan $) (item :caps)))
+  (def chans (map |(if (item :tchan) (ev/thread-chan $) (ev/chan $)) (item :caps)))
   (set pipes (seq [_ :range [0 (get item :npipes 0)]] (os/pipe)))
   # children that exit with code 3 when the director writes a line to their stdin (:x = non-zero exit raises)
   (set procs (seq [_ :range [0 (get item :nprocs 0)]]
